@@ -49,6 +49,10 @@ FAMILIES = [
     ("subrule-cycle-infix", -1, False, [1, 2, 3, 4],
      lambda k: "".join("#subruledef blk%d\n{\n    {x: blk%d} + {y: blk%d} => x @ y\n%s}\n" % (i, (i + 1) % k, (i + 1) % k, "    n{v: u8} => v\n" if i == k - 1 else "")
                        for i in range(k)) + "#ruledef\n{\n    ld {a: blk0} => a\n}\nld n1 + n2\nld n3\n"),
+    # large NEGATIVE values (magnitude m stands for 2^m bits): emitted, sliced, compared
+    ("neg-data-bits", -1, False, [10, 16, 18, 20, 22, 24, 26], lambda m: "#d -(0b111 << (1 << %d))\n" % m),
+    ("neg-slice-bits", -1, False, [10, 16, 18, 20, 22, 24, 26], lambda m: "x = (-(0b111 << (1 << %d)))[(1 << %d):3]\n#d8 x[7:0]\n" % (m, m)),
+    ("neg-sized-data-bits", -1, False, [10, 16, 18, 20, 22, 24], lambda m: "#d (-(0b111 << (1 << %d)))`((1 << %d) + 8)\n" % (m, m)),
     ("rule-fn-cycle", -1, True, [1, 2], lambda k: "#fn f(x) => asm { m {x} }\n#ruledef\n{\n    m {x} => f(x)\n}\nm 1\n"),
     ("include-cycle", -1, True, [1, 2, 3, 4], None),
 ]
